@@ -17,6 +17,7 @@ def RF (s : St) : Req → Resp → Prop
   | .getXR n _, resp => (resp = .err .notFound → none ∈ s.xhist n) ∧ (∀ x, resp = .xr x → some x ∈ s.xhist n)
   | .updClaim c, resp => ∀ c1, resp = .claim c1 → c1 ∈ s.hist ∧ c1.ref = c.ref
   | .updClaimStatus _, resp => ∀ c1, resp = .claim c1 → c1 ∈ s.hist
+  | .upgradeXR n rv _, resp => ∀ x', resp = .xr x' → some x' ∈ s.xhist n ∧ ∃ y, some y ∈ s.xhist n ∧ y.rv = rv ∧ y.cref = x'.cref
   | _, _ => True
 
 theorem rf_exec {P0 : Name → Prop} {s : St} (hi : Inv P0 s) (r : Req) : RF (exec s r).1 r (exec s r).2 := by
@@ -69,20 +70,36 @@ theorem rf_exec {P0 : Name → Prop} {s : St} (hi : Inv P0 s) (r : Req) : RF (ex
       · intro c1 h; cases h
       · intro c1 h; cases h
         exact pushClaim_resp_mem _ _
-  | upgradeXR n rv valid => trivial
+  | upgradeXR n rv valid =>
+    simp only [exec]
+    split
+    · intro x' h; cases h
+    · rename_i x hx
+      split
+      · intro x' h; cases h
+      · split
+        · intro x' h; cases h
+        · rename_i hrv
+          have hrv : rv = x.rv := by simpa using hrv
+          have hxm : some x ∈ s.xhist n := hx ▸ hi.xcur n
+          intro x' h
+          cases h
+          refine ⟨?_, x, ?_, hrv.symm, rfl⟩
+          · simp [emit, putXR]
+          · simp [emit, putXR]; exact Or.inr hxm
   | deleteXR n fg => trivial
   | createXR n rvSet cref => trivial
   | patchXR n rv cref => trivial
   | applyXR n cref => trivial
 
-theorem rf_err (s : St) (o : Outcome) (r : Req) : RF s r (errResp o r) := by
-  cases r <;> cases o <;> simp [RF, errResp, Req.isWrite]
+theorem rf_err (s : St) (e : Err) (r : Req) (h : admissible r e = true) : RF s r (.err e) := by
+  cases r <;> cases e <;> simp_all [RF, admissible]
 
 def Ok (P0 : Name → Prop) : P → St → Prop
   | .ret _, _ => True
   | .call r k, s => ∀ s', Fut s s' → Inv P0 s' →
-      G s' r ∧ Ok P0 (k (exec s' r).2) (exec s' r).1 ∧ (∀ o, Ok P0 (k (errResp o r)) s') ∧
-        ∀ o, Ok P0 (k (errResp o r)) (exec s' r).1
+      G s' r ∧ Ok P0 (k (exec s' r).2) (exec s' r).1 ∧ (∀ e, admissible r e = true → Ok P0 (k (.err e)) s') ∧
+        ∀ e, admissible r e = true → Ok P0 (k (.err e)) (exec s' r).1
 
 theorem ok_fut {P0 : Name → Prop} {p : P} {s s1 : St} (h : Ok P0 p s) (hf : Fut s s1) : Ok P0 p s1 := by
   cases p with
@@ -99,8 +116,8 @@ theorem ok_call {P0 : Name → Prop} {r : Req} {k : Resp → P} {s : St}
   intro s' hf hi
   have g := hG s' hf hi
   obtain ⟨hie, hfe⟩ := exec_inv_fut hi r g
-  exact ⟨g, hk _ _ (hf.trans hfe) hie (rf_exec hi r), fun o => hk _ _ hf hi (rf_err s' o r),
-    fun o => hk _ _ (hf.trans hfe) hie (rf_err _ o r)⟩
+  exact ⟨g, hk _ _ (hf.trans hfe) hie (rf_exec hi r), fun e he => hk _ _ hf hi (rf_err s' e r he),
+    fun e he => hk _ _ (hf.trans hfe) hie (rf_err _ e r he)⟩
 
 /-! ### the pieces of the reconciler -/
 
@@ -221,7 +238,8 @@ theorem ok_csaPost (cm1 : Claim) (s : St) (_hcm1 : cm1 ∈ s.hist) : Ok P0 (csaP
     | claim cm3 => exact ok_finish _ _
 
 theorem ok_csaApply (cfg : Cfg) (xr : Option XR) (cm1 : Claim) (n : Name) (s : St) (hcm1 : cm1 ∈ s.hist)
-    (href : cm1.refName = some n) (hnf : ¬ foreignAt s n) : Ok P0 (csaApply cfg xr cm1 n) s := by
+    (href : cm1.refName = some n) (hnf : ¬ foreignAt s n) (hseen : ∀ x, xr = some x → SeenRv s n x.rv) :
+    Ok P0 (csaApply cfg xr cm1 n) s := by
   have hack : acked s n := ⟨cm1, hcm1, href⟩
   unfold csaApply
   refine ok_call (fun _ _ _ => trivial) ?_
@@ -233,8 +251,12 @@ theorem ok_csaApply (cfg : Cfg) (xr : Option XR) (cm1 : Claim) (n : Name) (s : S
     dsimp only
     split
     · exact ok_csaPost _ _ (hf2.hist _ hcm1)
-    · refine ok_call (fun s' hf' hi' => ⟨⟨(hf2.trans hf').acked hack, hf'.notForeign n (hf2.notForeign n hnf)⟩,
-        id_of_mem hi' (hf'.hist _ (hf2.hist _ hcm1))⟩) ?_
+    · refine ok_call (fun s' hf' hi' => ⟨⟨⟨(hf2.trans hf').acked hack, hf'.notForeign n (hf2.notForeign n hnf)⟩,
+        id_of_mem hi' (hf'.hist _ (hf2.hist _ hcm1))⟩, ?_⟩) ?_
+      · intro v hv
+        cases xr with
+        | none => cases hv
+        | some x0 => cases hv; exact (hf2.trans hf').seen (hseen x0 rfl)
       intro s3 resp hf3 hi3 _
       cases resp with
       | claim c => exact ok_ret _ _
@@ -257,7 +279,8 @@ theorem ok_csaApply (cfg : Cfg) (xr : Option XR) (cm1 : Claim) (n : Name) (s : S
     | other => exact ok_failWith _ _ _
 
 theorem ok_csaBindNew (cfg : Cfg) (xr : Option XR) (cm : Claim) (n : Name) (s : St) (hcm : cm ∈ s.hist)
-    (href : cm.refName = none ∨ cm.refName = some n) (hnf : ¬ foreignAt s n) : Ok P0 (csaBindNew cfg xr cm n) s := by
+    (href : cm.refName = none ∨ cm.refName = some n) (hnf : ¬ foreignAt s n) (hseen : ∀ x, xr = some x → SeenRv s n x.rv) :
+    Ok P0 (csaBindNew cfg xr cm n) s := by
   unfold csaBindNew
   refine ok_call (fun s' hf' _ => g_updClaim hcm hf' rfl (refExt_setRef _ href)) ?_
   intro s2 resp hf2 hi2 hrf
@@ -268,22 +291,32 @@ theorem ok_csaBindNew (cfg : Cfg) (xr : Option XR) (cm : Claim) (n : Name) (s : 
   | claim cm1 =>
     obtain ⟨hcm1, href1⟩ := hrf cm1 rfl
     exact ok_csaApply cfg xr cm1 n s2 hcm1 (by rw [Claim.refName, href1]; rfl) (hf2.notForeign n hnf)
+      (fun x hx => hf2.seen (hseen x hx))
 
 theorem ok_syncCSA (cfg : Cfg) (cm : Claim) (xr : Option XR) (s : St) (hcm : cm ∈ s.hist)
-    (hnf : ∀ n, cm.refName = some n → ¬ foreignAt s n) : Ok P0 (syncCSA cfg cm xr) s := by
+    (hnf : ∀ n, cm.refName = some n → ¬ foreignAt s n)
+    (hseen : ∀ x, xr = some x → ∃ n, cm.refName = some n ∧ SeenRv s n x.rv) : Ok P0 (syncCSA cfg cm xr) s := by
   unfold syncCSA
   cases href : cm.ref with
   | some r =>
     have hrn : cm.refName = some r.name := by rw [Claim.refName, href]; rfl
+    have hs : ∀ x, xr = some x → SeenRv s r.name x.rv := by
+      intro x hx
+      obtain ⟨n, hn, hsn⟩ := hseen x hx
+      rw [hrn] at hn; cases hn; exact hsn
     dsimp only
     split
-    · exact ok_csaApply cfg xr cm r.name s hcm hrn (hnf _ hrn)
-    · exact ok_csaBindNew cfg xr cm r.name s hcm (Or.inr hrn) (hnf _ hrn)
+    · exact ok_csaApply cfg xr cm r.name s hcm hrn (hnf _ hrn) hs
+    · exact ok_csaBindNew cfg xr cm r.name s hcm (Or.inr hrn) (hnf _ hrn) hs
   | none =>
     have hrn : cm.refName = none := by rw [Claim.refName, href]; rfl
+    have hxr : xr = none := by
+      cases xr with
+      | none => rfl
+      | some x => obtain ⟨n, hn, _⟩ := hseen x rfl; rw [hrn] at hn; cases hn
     refine ok_genName cfg.xpick s 10 2 cfg.cands _ ?_ (fun s1 => ok_statusThen _ _ _) s (Fut.refl s)
     intro n s1 hf1 hnf1
-    exact ok_csaBindNew cfg xr cm n s1 (hf1.hist cm hcm) (Or.inl hrn) hnf1
+    exact ok_csaBindNew cfg xr cm n s1 (hf1.hist cm hcm) (Or.inl hrn) hnf1 (fun x hx => by rw [hxr] at hx; cases hx)
 
 theorem ok_finalizeClaim (cm : Claim) (s : St) (hcm : cm ∈ s.hist) : Ok P0 (finalizeClaim cm) s := by
   unfold finalizeClaim
@@ -330,17 +363,26 @@ theorem ok_deletePath (cm : Claim) (xr : Option (Name × XR)) (s : St) (hcm : cm
         | other => exact ok_statusThen _ _ _
 
 theorem ok_syncWith (cfg : Cfg) (cm : Claim) (xr : Option (Name × XR)) (s : St) (hcm : cm ∈ s.hist)
-    (hnf : ∀ n, cm.refName = some n → ¬ foreignAt s n) : Ok P0 (syncWith cfg cm xr) s := by
+    (hnf : ∀ n, cm.refName = some n → ¬ foreignAt s n)
+    (hseen : ∀ n x, xr = some (n, x) → cm.refName = some n ∧ SeenRv s n x.rv) : Ok P0 (syncWith cfg cm xr) s := by
   unfold syncWith
   split
   · exact ok_syncSSA cfg cm s hcm hnf
-  · exact ok_syncCSA cfg cm _ s hcm hnf
+  · refine ok_syncCSA cfg cm _ s hcm hnf ?_
+    intro x hx
+    cases xr with
+    | none => cases hx
+    | some p =>
+      obtain ⟨n, y⟩ := p
+      cases hx
+      exact ⟨n, hseen n y rfl⟩
 
 theorem ok_bindPath (cfg : Cfg) (cm : Claim) (xr : Option (Name × XR)) (s : St) (hcm : cm ∈ s.hist)
-    (hnf : ∀ n, cm.refName = some n → ¬ foreignAt s n) : Ok P0 (bindPath cfg cm xr) s := by
+    (hnf : ∀ n, cm.refName = some n → ¬ foreignAt s n)
+    (hseen : ∀ n x, xr = some (n, x) → cm.refName = some n ∧ SeenRv s n x.rv) : Ok P0 (bindPath cfg cm xr) s := by
   unfold bindPath
   split
-  · exact ok_syncWith cfg cm xr s hcm hnf
+  · exact ok_syncWith cfg cm xr s hcm hnf hseen
   · refine ok_call (fun s' hf' _ => g_updClaim hcm hf' rfl (fun _ h => h)) ?_
     intro s2 resp hf2 hi2 hrf
     cases resp with
@@ -349,22 +391,26 @@ theorem ok_bindPath (cfg : Cfg) (cm : Claim) (xr : Option (Name × XR)) (s : St)
     | err e => exact ok_failWith _ _ _
     | claim cm1 =>
       obtain ⟨hcm1, href1⟩ := hrf cm1 rfl
-      refine ok_syncWith cfg cm1 xr s2 hcm1 ?_
-      intro n hn
-      exact hf2.notForeign n (hnf n (by
-        have : cm1.refName = cm.refName := by rw [Claim.refName, href1]; rfl
-        rw [← this]; exact hn))
+      have hrn : cm1.refName = cm.refName := by rw [Claim.refName, href1]; rfl
+      refine ok_syncWith cfg cm1 xr s2 hcm1 ?_ ?_
+      · intro n hn
+        exact hf2.notForeign n (hnf n (by rw [← hrn]; exact hn))
+      · intro n x hx
+        obtain ⟨h1, h2⟩ := hseen n x hx
+        exact ⟨hrn ▸ h1, hf2.seen h2⟩
 
 theorem ok_restOf (cfg : Cfg) (cm : Claim) (xr : Option (Name × XR)) (s : St) (hcm : cm ∈ s.hist)
-    (hnf : ∀ n, cm.refName = some n → ¬ foreignAt s n) (hx : ∀ n x, xr = some (n, x) → cm.refName = some n) :
+    (hnf : ∀ n, cm.refName = some n → ¬ foreignAt s n)
+    (hx : ∀ n x, xr = some (n, x) → cm.refName = some n ∧ SeenRv s n x.rv) :
     Ok P0 (restOf cfg cm xr) s := by
   unfold restOf
   split
-  · exact ok_deletePath cm xr s hcm (fun n x h => hnf n (hx n x h))
-  · exact ok_bindPath cfg cm xr s hcm hnf
+  · exact ok_deletePath cm xr s hcm (fun n x h => hnf n (hx n x h).1)
+  · exact ok_bindPath cfg cm xr s hcm hnf hx
 
 theorem ok_afterCheck (cfg : Cfg) (cm : Claim) (xr : Option (Name × XR)) (s : St) (hcm : cm ∈ s.hist)
-    (hnf : ∀ n, cm.refName = some n → ¬ foreignAt s n) (hx : ∀ n x, xr = some (n, x) → cm.refName = some n) :
+    (hnf : ∀ n, cm.refName = some n → ¬ foreignAt s n)
+    (hx : ∀ n x, xr = some (n, x) → cm.refName = some n ∧ SeenRv s n x.rv) :
     Ok P0 (afterCheck cfg cm xr) s := by
   unfold afterCheck
   generalize cfg.up = up
@@ -376,19 +422,27 @@ theorem ok_afterCheck (cfg : Cfg) (cm : Claim) (xr : Option (Name × XR)) (s : S
     | none => exact ok_restOf cfg cm _ s hcm hnf hx
     | some valid =>
       dsimp only
-      have href : cm.refName = some n := hx n x rfl
-      refine ok_call (fun s' hf' _ => hf'.notForeign n (hnf n href)) ?_
-      intro s2 resp hf2 hi2 _
+      obtain ⟨href, hsx⟩ := hx n x rfl
+      refine ok_call (fun s' hf' _ => ⟨hf'.notForeign n (hnf n href), hf'.seen hsx⟩) ?_
+      intro s2 resp hf2 hi2 hrf
       have hnf2 : ∀ m, cm.refName = some m → ¬ foreignAt s2 m := fun m hm => hf2.notForeign m (hnf m hm)
-      have hx2 : ∀ (y : XR) m z, some (n, y) = some (m, z) → cm.refName = some m := by
-        intro y m z h; cases h; exact href
+      have hx2 : ∀ (y : XR), SeenRv s2 n y.rv → ∀ m z, some (n, y) = some (m, z) → cm.refName = some m ∧ SeenRv s2 m z.rv := by
+        intro y hy m z h; cases h; exact ⟨href, hy⟩
       cases resp with
       | claim c => exact ok_ret _ _
       | ok => exact ok_ret _ _
-      | xr x' => exact ok_restOf cfg cm _ s2 (hf2.hist _ hcm) hnf2 (hx2 x')
+      | xr x' =>
+        refine ok_restOf cfg cm _ s2 (hf2.hist _ hcm) hnf2 (hx2 x' ?_)
+        -- the state the patch produced has the claimRef of the state whose resourceVersion it carried
+        obtain ⟨hx'm, y, hym, hyrv, hyc⟩ := hrf x' rfl
+        obtain ⟨z, hzm, hzrv, hznf⟩ := hf2.seen hsx
+        have hzy : z.cref = y.cref := hi2.rvU n z y hzm hym (hzrv.trans hyrv.symm)
+        refine ⟨x', hx'm, rfl, ?_⟩
+        intro ⟨r, hr, hne⟩
+        exact hznf ⟨r, by rw [hzy, hyc]; exact hr, hne⟩
       | err e =>
         cases e with
-        | notFound => exact ok_restOf cfg cm _ s2 (hf2.hist _ hcm) hnf2 (hx2 x)
+        | notFound => exact ok_restOf cfg cm _ s2 (hf2.hist _ hcm) hnf2 (hx2 x (hf2.seen hsx))
         | conflict => exact ok_failWith _ _ _
         | invalid => exact ok_failWith _ _ _
         | «exists» => exact ok_failWith _ _ _
@@ -411,16 +465,19 @@ theorem ok_checked (cfg : Cfg) (cm : Claim) (xr : Option (Name × XR)) (s : St) 
     split
     · exact ok_statusThen _ _ _
     · rename_i hne
-      refine ok_afterCheck cfg cm _ s hcm ?_ (fun m y h => by cases h; exact href)
+      have hnfx : ¬ x.foreignTo s.me := by
+        intro ⟨r, hr, hrne⟩
+        apply hne
+        unfold unbound
+        rw [hr, id_of_mem hi hcm]
+        simpa using hrne
+      refine ok_afterCheck cfg cm _ s hcm ?_ (fun m y h => by cases h; exact ⟨href, x, hxs, rfl, hnfx⟩)
       intro m hm
       rw [href] at hm; cases hm
       refine not_foreign_of_hist hi hxs ?_
-      intro y hy ⟨r, hr, hrne⟩
+      intro y hy
       cases hy
-      apply hne
-      unfold unbound
-      rw [hr, id_of_mem hi hcm]
-      simpa using hrne
+      exact hnfx
 
 theorem ok_withClaim (cfg : Cfg) (cm : Claim) (s : St) (hi : Inv P0 s) (hcm : cm ∈ s.hist) : Ok P0 (withClaim cfg cm) s := by
   unfold withClaim
@@ -480,12 +537,12 @@ theorem reach_inv {s0 : St} (h0 : Inv P0 s0) {sys : Sys} (hr : Reach s0 sys) :
     | callOk s r k =>
       have h := hok _ rfl s (Fut.refl s) hi
       exact ⟨(exec_inv_fut hi r h.1).1, fun p hp => by cases hp; exact h.2.1⟩
-    | callErr s r k o =>
+    | callErr s r k e he =>
       have h := hok _ rfl s (Fut.refl s) hi
-      exact ⟨hi, fun p hp => by cases hp; exact h.2.2.1 o⟩
-    | callLost s r k o =>
+      exact ⟨hi, fun p hp => by cases hp; exact h.2.2.1 e he⟩
+    | callLost s r k e he =>
       have h := hok _ rfl s (Fut.refl s) hi
-      exact ⟨(exec_inv_fut hi r h.1).1, fun p hp => by cases hp; exact h.2.2.2 o⟩
+      exact ⟨(exec_inv_fut hi r h.1).1, fun p hp => by cases hp; exact h.2.2.2 e he⟩
     | done s a =>
       exact ⟨hi, fun p hp => by cases hp⟩
 
